@@ -1723,3 +1723,152 @@ Proof.
   - rewrite E. destruct (mem a (addrs_of s (cur s))) eqn:Em; [reflexivity|].
     apply mem_false in Em. exfalso. apply Em. apply (Hall (cur s)). rewrite E. left. reflexivity.
 Qed.
+
+(* ====================================================================================== *)
+(* Event hooks across reloads (SIGUSR1 handler: clone / purge / restore; Restart: clone / restore) *)
+Lemma hregister_app g names : forall h h2,
+  hregister g names h = Some h2 -> h2 = h ++ map (fun x => (x, g)) names.
+Proof.
+  induction names as [|x r IH]; intros h h2 H; simpl in *.
+  - injection H as <-. rewrite app_nil_r. reflexivity.
+  - destruct (hmem x h); [discriminate|]. apply IH in H. rewrite H. rewrite <- app_assoc. reflexivity.
+Qed.
+
+Lemma hreload_failed_unchanged s c :
+  snd (hreload s c) = false ->
+  hs_reg (fst (hreload s c)) = hs_reg s /\ hs_cur (fst (hreload s c)) = hs_cur s
+  /\ hs_names (fst (hreload s c)) = hs_names s /\ hs_okg (fst (hreload s c)) = hs_okg s.
+Proof.
+  unfold hreload. destruct (hregister _ _ _) as [h2|]; [destruct (Nat.eqb (hc_fate c) 0)|]; simpl;
+    try discriminate; intros _; destruct (hc_sig c); auto.
+Qed.
+
+Lemma hreload_ok_direct s c :
+  hc_sig c = false -> snd (hreload s c) = true ->
+  hs_reg (fst (hreload s c)) = hs_reg s ++ map (fun x => (x, S (hs_calls s))) (hc_names c)
+  /\ hs_cur (fst (hreload s c)) = S (hs_calls s).
+Proof.
+  unfold hreload. intros Hs. rewrite Hs.
+  destruct (hregister _ _ _) as [h2|] eqn:E; [destruct (Nat.eqb (hc_fate c) 0)|]; simpl; try discriminate.
+  intros _. apply hregister_app in E. auto.
+Qed.
+
+Lemma hreload_ok_sig s c :
+  hc_sig c = true -> snd (hreload s c) = true ->
+  hs_reg (fst (hreload s c)) = map (fun x => (x, S (hs_calls s))) (hc_names c)
+  /\ hs_cur (fst (hreload s c)) = S (hs_calls s).
+Proof.
+  unfold hreload. intros Hs. rewrite Hs.
+  destruct (hregister _ _ _) as [h2|] eqn:E; [destruct (Nat.eqb (hc_fate c) 0)|]; simpl; try discriminate.
+  intros _. apply hregister_app in E. auto.
+Qed.
+
+(* a valid configuration whose hook names are new is always taken over *)
+Lemma hregister_fresh g names : forall h,
+  nodupb names = true -> (forall x, In x names -> hmem x h = false) ->
+  exists h2, hregister g names h = Some h2.
+Proof.
+  induction names as [|x r IH]; intros h Hn Hf; simpl.
+  - eauto.
+  - simpl in Hn. apply andb_true_iff in Hn. destruct Hn as [Hx Hr].
+    rewrite (Hf x (or_introl eq_refl)). apply IH; [exact Hr|].
+    intros y Hy. assert (Hs : hmem y (h ++ [(x, g)]) = hmem y h || Nat.eqb x y).
+    { unfold hmem. rewrite existsb_app. simpl. rewrite orb_false_r. reflexivity. }
+    rewrite Hs. rewrite (Hf y (or_intror Hy)). simpl.
+    destruct (Nat.eqb x y) eqn:E; [|reflexivity]. apply Nat.eqb_eq in E. subst y.
+    apply negb_true_iff in Hx. exfalso.
+    assert (mem x r = true) as Hm. { unfold mem. apply existsb_exists. exists x. split; [exact Hy|apply Nat.eqb_refl]. }
+    rewrite Hm in Hx. discriminate.
+Qed.
+
+(* invariant 1: every registered hook was registered by a generation that was started successfully *)
+Definition hinv_owner (s : hstate) : Prop := forall p, In p (hs_reg s) -> In (snd p) (hs_okg s).
+
+Lemma hinv_owner_init names0 : hinv_owner (hinit names0).
+Proof. intros p Hp. simpl in *. apply in_map_iff in Hp. destruct Hp as (x & <- & _). simpl. auto. Qed.
+
+Lemma hinv_owner_step s c : hinv_owner s -> hinv_owner (fst (hreload s c)).
+Proof.
+  intros Hi. destruct (snd (hreload s c)) eqn:Eok.
+  - unfold hreload in *. destruct (hregister _ _ _) as [h2|] eqn:E; [destruct (Nat.eqb (hc_fate c) 0)|];
+      simpl in *; try discriminate.
+    apply hregister_app in E. subst h2. intros p Hp. simpl in *. apply in_app_or in Hp. destruct Hp as [Hp|Hp].
+    + right. apply Hi. destruct (hc_sig c); [contradiction|exact Hp].
+    + apply in_map_iff in Hp. destruct Hp as (x & <- & _). left. reflexivity.
+  - destruct (hreload_failed_unchanged s c Eok) as (E1 & _ & _ & E4). intros p Hp. rewrite E1 in Hp. rewrite E4. auto.
+Qed.
+
+Lemma hinv_owner_run cs : forall s, hinv_owner s -> hinv_owner (hrun s cs).
+Proof. induction cs as [|c r IH]; intros s Hs; simpl; [exact Hs|]. apply IH. apply hinv_owner_step. exact Hs. Qed.
+
+Lemma hooks_owned_by_started names0 cs p :
+  In p (hs_reg (hrun (hinit names0) cs)) -> In (snd p) (hs_okg (hrun (hinit names0) cs)).
+Proof. apply hinv_owner_run. apply hinv_owner_init. Qed.
+
+(* the generations started successfully are exactly 0 and those whose reload returned success;
+   a generation whose reload failed is never among them *)
+Lemma hokg_bound s c g : In g (hs_okg (fst (hreload s c))) -> In g (hs_okg s) \/ (g = S (hs_calls s) /\ snd (hreload s c) = true).
+Proof.
+  unfold hreload. destruct (hregister _ _ _) as [h2|]; [destruct (Nat.eqb (hc_fate c) 0)|]; simpl; auto.
+  intros [<-|H]; auto.
+Qed.
+
+(* invariant 2 (SIGUSR1 path): the registry is exactly the hooks of the configuration in force *)
+Definition hinv_exact (s : hstate) : Prop := hs_reg s = map (fun x => (x, hs_cur s)) (hs_names s).
+
+Lemma hinv_exact_step s c : hc_sig c = true -> hinv_exact s -> hinv_exact (fst (hreload s c)).
+Proof.
+  intros Hs Hi. destruct (snd (hreload s c)) eqn:Eok.
+  - destruct (hreload_ok_sig s c Hs Eok) as (E1 & E2). unfold hinv_exact. rewrite E1, E2.
+    unfold hreload in *. rewrite Hs in *.
+    destruct (hregister _ _ _) as [h2|]; [destruct (Nat.eqb (hc_fate c) 0)|]; simpl in *; try discriminate. reflexivity.
+  - destruct (hreload_failed_unchanged s c Eok) as (E1 & E2 & E3 & _). unfold hinv_exact. rewrite E1, E2, E3. exact Hi.
+Qed.
+
+Lemma hinv_exact_run cs : forall s, forallb hc_sig cs = true -> hinv_exact s -> hinv_exact (hrun s cs).
+Proof.
+  induction cs as [|c r IH]; intros s Hall Hs; simpl; [exact Hs|].
+  simpl in Hall. apply andb_true_iff in Hall. destruct Hall as [Hc Hr]. apply IH; [exact Hr|]. apply hinv_exact_step; assumption.
+Qed.
+
+Lemma hooks_sigusr1_exactly_current names0 cs :
+  forallb hc_sig cs = true ->
+  let s := hrun (hinit names0) cs in hs_reg s = map (fun x => (x, hs_cur s)) (hs_names s).
+Proof. intros Hall. apply hinv_exact_run; [exact Hall|reflexivity]. Qed.
+
+(* the InstanceRestartEvent of the SIGUSR1 handler is emitted AFTER purgeEventHooks: no hook ever receives it *)
+Lemma hemit_step s c : Forall (fun r => r = []) (hs_emit s) -> Forall (fun r => r = []) (hs_emit (fst (hreload s c))).
+Proof.
+  intros H. unfold hreload. destruct (hregister _ _ _) as [h2|]; [destruct (Nat.eqb (hc_fate c) 0)|]; simpl;
+    destruct (hc_sig c); auto.
+Qed.
+Lemma restart_event_reaches_no_hook names0 cs : Forall (fun r => r = []) (hs_emit (hrun (hinit names0) cs)).
+Proof.
+  assert (G : forall cs s, Forall (fun r => r = []) (hs_emit s) -> Forall (fun r => r = []) (hs_emit (hrun s cs))).
+  { clear. induction cs as [|c r IH]; intros s Hs; simpl; [exact Hs|]. apply IH. apply hemit_step. exact Hs. }
+  apply G. constructor.
+Qed.
+
+Lemma hreload_sig_valid_succeeds s c :
+  hc_sig c = true -> hc_fate c = 0 -> nodupb (hc_names c) = true -> snd (hreload s c) = true.
+Proof.
+  intros Hs Hf Hn. unfold hreload. rewrite Hs, Hf.
+  destruct (hregister_fresh (S (hs_calls s)) (hc_names c) [] Hn) as (h2 & E); [reflexivity|].
+  rewrite E. reflexivity.
+Qed.
+
+Lemma hooks_only_current_refuted :
+  exists names0 cs p, In p (hs_reg (hrun (hinit names0) cs)) /\ snd p <> hs_cur (hrun (hinit names0) cs).
+Proof.
+  exists [0], [{| hc_sig := false; hc_names := [2]; hc_fate := 0 |}], (0, 0). split; [vm_compute; auto|vm_compute; discriminate].
+Qed.
+
+Lemma hooks_only_current_partial names0 cs p :
+  In p (hs_reg (hrun (hinit names0) cs)) ->
+  In (snd p) (hs_okg (hrun (hinit names0) cs)) /\
+  (forallb hc_sig cs = true -> snd p = hs_cur (hrun (hinit names0) cs)).
+Proof.
+  intros Hp. split; [apply hooks_owned_by_started; exact Hp|].
+  intros Hall. pose proof (hooks_sigusr1_exactly_current names0 cs Hall) as E. simpl in E.
+  rewrite E in Hp. apply in_map_iff in Hp. destruct Hp as (x & <- & _). reflexivity.
+Qed.
